@@ -569,25 +569,28 @@ func (d *Downstream) resume(parentConn *Conn, wireConn *wire.ClientConn, generat
 	}
 	d.wireConn.Store(wireConn)
 
+	// subscribe once: a resume request answered with RESUME_REQUEST_CONFLICT is sent again, the subscriptions stay
+	dpsCh, err := wireConn.SubscribeDownstreamChunk(d.ctx, d.idAlias, d.Config.QoS)
+	if err != nil {
+		resErr := fmt.Errorf("failed to SubscribeDownstreamChunk: %w", err)
+		d.closeWithError(d.ctx, resErr)
+		return resErr
+	}
+	ackCompCh, err := wireConn.SubscribeDownstreamChunkAckComplete(d.ctx, d.idAlias)
+	if err != nil {
+		resErr := fmt.Errorf("failed to SubscribeDownstreamChunkAckComplete: %w", err)
+		d.closeWithError(d.ctx, resErr)
+		return resErr
+	}
+	metaCh, err := parentConn.subscribeDownstreamMetadata(d.ctx, wireConn, d.idAlias, d.Config.Filters)
+	if err != nil {
+		resErr := fmt.Errorf("failed to subscribeDownstreamMetadata: %w", err)
+		d.closeWithError(d.ctx, resErr)
+		return resErr
+	}
+
 	var resErr error
 	retry.Do(func() (end bool) {
-		dpsCh, err := wireConn.SubscribeDownstreamChunk(d.ctx, d.idAlias, d.Config.QoS)
-		if err != nil {
-			resErr = fmt.Errorf("failed to SubscribeDownstreamChunk: %w", err)
-			return true
-		}
-		ackCompCh, err := wireConn.SubscribeDownstreamChunkAckComplete(d.ctx, d.idAlias)
-		if err != nil {
-			resErr = fmt.Errorf("failed to SubscribeDownstreamChunkAckComplete: %w", err)
-			return true
-		}
-
-		metaCh, err := parentConn.subscribeDownstreamMetadata(d.ctx, wireConn, d.idAlias, d.Config.Filters)
-		if err != nil {
-			resErr = fmt.Errorf("failed to subscribeDownstreamMetadata: %w", err)
-			return true
-		}
-
 		resp, err := wireConn.SendDownstreamResumeRequest(d.ctx, &message.DownstreamResumeRequest{
 			StreamID:             d.ID,
 			DesiredStreamIDAlias: d.idAlias,
